@@ -237,6 +237,9 @@ Proof.
   apply (new_edges_good p broken joined Hj) in He. destruct He as [H1 H2]. destruct Hfs as [<- | <-]; assumption.
 Qed.
 
+Lemma list_eqb_refl l : list_eqb l l = true.
+Proof. induction l as [|x l IH]; cbn [list_eqb]; [reflexivity|]. rewrite Nat.eqb_refl. exact IH. Qed.
+
 (* ------------------------------------------------------------------ the k-opt search returns only try_path results
    built from joined edges that stay inside the tour *)
 Section Search.
@@ -248,7 +251,7 @@ Section Search.
   Variable p : list nat.
   Let t := tour_new p.
 
-  Definition okres (r : res) : Prop := forall q, r = Found q -> Permutation q p /\ hd_error q = hd_error p.
+  Definition okres (r : res) : Prop := forall q, r = Found q -> (Permutation q p /\ hd_error q = hd_error p) /\ q <> p.
   Definition keys_in (m : list entry) : Prop := forall e, In e m -> In (fst e) p.
 
   Lemma upsert_keys node d g m : In node p -> keys_in m -> keys_in (upsert node d g m).
@@ -346,8 +349,9 @@ Section Search.
       by (apply choose_y_ok; assumption).
     destruct (gain + cost cm last t2i - cost cm t2i t1 >? 0)%Z; [|apply Hy; exact Hq].
     destruct (try_path t (eins (mk_edge last t2i) broken) (eins (mk_edge t2i t1) joined)) as [q'|] eqn:Et.
-    - destruct (list_eqb q' (tpath t)); [discriminate|]. inversion Hq; subst q'.
-      eapply try_path_permutation; [|exact Et]. apply good_eins; assumption.
+    - destruct (list_eqb q' (tpath t)) eqn:El; [discriminate|]. inversion Hq; subst q'. split.
+      + eapply try_path_permutation; [|exact Et]. apply good_eins; assumption.
+      + intros ->. cbn [tour_new tpath] in El. rewrite list_eqb_refl in El. discriminate.
     - destruct (2 <? length (eins (mk_edge t2i t1) joined)); [|apply Hy; exact Hq].
       apply IH; [|exact Hq]. intros c Hc'. apply Hc. right. exact Hc'.
   Qed.
@@ -420,7 +424,7 @@ Section Search.
     - discriminate.
   Qed.
 
-  Theorem improve_ok q : improve cm nb ho p = Found q -> Permutation q p /\ hd_error q = hd_error p.
+  Theorem improve_ok q : improve cm nb ho p = Found q -> (Permutation q p /\ hd_error q = hd_error p) /\ q <> p.
   Proof. unfold improve. apply t1_loop_ok. cbn [tour_new tpath]. auto. Qed.
 End Search.
 
@@ -431,7 +435,7 @@ Theorem optimize_ok cm nb ho :
 Proof.
   intros Hho. induction ofuel as [|f IH]; intros p q H; cbn [optimize] in H; [discriminate|].
   destruct (improve cm nb ho p) as [p'| | |] eqn:Ei; try discriminate.
-  - apply (improve_ok cm nb ho Hho) in Ei. destruct Ei as [P1 Hd1].
+  - apply (improve_ok cm nb ho Hho) in Ei. destruct Ei as [[P1 Hd1] _].
     apply IH in H. destruct H as [P2 Hd2]. split; [eapply Permutation_trans; eauto | congruence].
   - inversion H; subst. split; [apply Permutation_refl | reflexivity].
 Qed.
